@@ -132,6 +132,17 @@ func (ms *monitorState) attach() {
 			ms.keys[id] = &keyTrack{id: id, holds: map[*Lock]*holdTrack{}}
 			ms.order = append(ms.order, id)
 		}
+		// keys outside the common set that single requests use (keys nobody else touches)
+		for ci := range cr.body.Clients {
+			for oi := range cr.body.Clients[ci].Ops {
+				o := &cr.body.Clients[ci].Ops[oi]
+				id := kid{uint8(dbi), keyBytes(o.Key)}
+				if o.Key >= cr.body.NKeys && ms.keys[id] == nil {
+					ms.keys[id] = &keyTrack{id: id, holds: map[*Lock]*holdTrack{}}
+					ms.order = append(ms.order, id)
+				}
+			}
+		}
 		for i := range db.managerGlocks {
 			pm := db.managerGlocks[i]
 			ms.pms[pm] = db
